@@ -130,6 +130,28 @@ MOTIFS = {
     'M5d_switch_below_second_candidate_no_case': spec([
         node(0), node(1, body={'kind': 'label', 'v': 'unknown'}), node(2), node(3, [('a', sw(1, [('l0', 2)]))]),
         node(4, [('a', inp(3))]), node(5, fails=FAIL), node(6, [('a', one(5, 4)), ('b', inp(1))])]),
+    # a diamond inside a recurrent subgraph: in the second iteration one input of the join is new while the other is
+    # still being recomputed
+    'M20_rec_diamond': spec([
+        node(0), node(1, has_additional=True), node(2, [('a', inp(1))]), node(3, [('a', inp(1))]),
+        node(4, [('a', inp(2)), ('b', inp(3))], is_rec=True, recur_k=1), node(5, [('a', rec(1, 4, 2))])]),
+    'M20b_rec_diamond_deeper': spec([
+        node(0), node(1, has_additional=True), node(2, [('a', inp(1))]), node(3, [('a', inp(1))]), node(4, [('a', inp(3))]),
+        node(5, [('a', inp(2)), ('b', inp(4))]), node(6, [('a', inp(5))], is_rec=True, recur_k=2),
+        node(7, [('a', rec(1, 6, 3))])]),
+    # the losing candidate and the next one share an ancestor P whose own dependency N is still running when the first
+    # candidate is found to have lost (N's only consumer is P)
+    'M21_candidates_share_ancestor_with_running_dependency': spec([
+        node(0), node(1, fails=FAIL), node(2), node(3, [('a', inp(2))]), node(4, [('a', inp(1)), ('b', inp(3))]),
+        node(5, [('a', inp(3))]), node(6, [('a', one(4, 5))])]),
+    # the consumer of a one-of is needed again by a switch case that is resolved late: the reduced DAG of that case is
+    # computed after the one-of has started (its untried candidates must not be part of it)
+    'M22_oneof_consumer_needed_by_late_switch_case': spec([
+        node(0), node(1), node(2), node(3, [('a', one(1, 2))]), node(4, body=LAB), node(5, [('a', inp(3))]),
+        node(6, [('a', inp(3)), ('b', sw(4, [('l0', 5)]))])]),
+    'M22b_oneof_consumer_needed_by_late_nested_oneof': spec([
+        node(0), node(1), node(2), node(3, [('a', one(1, 2))]), node(4, fails=FAIL), node(5, [('a', inp(3))]), node(6),
+        node(7, [('a', one(5, 6))]), node(8, [('a', one(4, 7)), ('b', inp(3))])]),
     # a recurrent destination with a consumer next to another branch
     'M6_rec_then_join': spec([
         node(0), node(1, has_additional=True), node(2, [('a', inp(1))], is_rec=True, recur_k=2),
